@@ -1011,3 +1011,107 @@ def shrink_schema(schema):
         for k, c in enumerate(r['name']):
             if c[0] == 'ref':
                 yield with_rule(dict(r, name=r['name'][:k] + [['lit', 'a']] + r['name'][k + 1:]))
+
+
+# ------------------------------------------------- state carried between compilations in one process (sessions)
+# A session is a list of ops executed in order in ONE process; every compilation in it is judged on its own:
+#   ['self']                   the schema of the case is compiled (again)
+#   ['text', schema, label]    another schema is compiled (label: 'other' | 'bad' | 'donor' | 'orig' | 'sibling')
+#   ['raw', text]              a text the grammar refuses is handed to compile_lvs (only executed)
+RAW_TEXTS = ['#a: "x"/', '#a "x"', '#a: "x" <= ', '#a: x & {', 'a: "x"', '#a: x & {x: $f(}', '#a: "x"\n#b: #a/']
+
+
+def repeated_pattern_rule(rng, lits, named, rid='#p1', signers=()):
+    """a definition whose name writes ONE pattern (mostly a temporary one) two or three times among literals, with one
+    or two constraint sets on it"""
+    pat = rng.choice(TEMPS + TEMPS + TEMPS + list(named[:1]))
+    k = rng.choice([2, 2, 3])
+    body = [['pat', pat] for _ in range(k)] + [['lit', rng.choice(lits)] for _ in range(rng.choice([0, 1, 1, 2]))]
+    rng.shuffle(body)
+    cons = [[{'pat': pat, 'opts': [['lit', rng.choice(lits)] for _ in range(rng.choice([1, 2, 2]))]}]]
+    if rng.random() < 0.3:
+        cons.append([{'pat': pat, 'opts': [gen_opt(rng, [], lits)]}])
+    if rng.random() < 0.15:
+        cons = []
+    return {'id': rid, 'name': body[:MAXLEN], 'cons': cons, 'sign': sorted(signers)}
+
+
+def sibling_schema(rng, schema):
+    """a nearby text over the same identifiers: the definitions in another order, one piece dropped, or one literal of a
+    name replaced (None when there is none that differs)"""
+    import copy
+    r = rng.random()
+    if r < 0.3 and len(schema['rules']) > 1:
+        rules = list(schema['rules'])
+        rng.shuffle(rules)
+        s = {'rules': rules}
+    elif r < 0.7:
+        cand = list(shrink_schema(schema))
+        s = rng.choice(cand) if cand else None
+    else:
+        s = copy.deepcopy(schema)
+        lits = [c for ru in s['rules'] for c in ru['name'] if c[0] == 'lit']
+        if lits:
+            c = rng.choice(lits)
+            c[1] = rng.choice([x for x in LITS if x != c[1]])
+    return s if s is not None and s != schema and s['rules'] else None
+
+
+def broken_schema(rng, schema):
+    """the schema with one static error (undefined rule in a name / as signer, a constraint on a pattern written nowhere,
+    a rule referring to itself, a rule signing itself) - compile_lvs or the loader raises on it"""
+    rules = [dict(r) for r in schema['rules']]
+    real = [i for i, r in enumerate(rules) if not is_temp(r['id'])]
+    i = rng.randrange(len(rules))
+    r = rules[i]
+    kind = rng.choice(['ref', 'signer', 'cons', 'ref-cycle', 'sign-cycle'])
+    if kind in ('ref-cycle', 'sign-cycle') and not real:
+        kind = 'ref'
+    if kind == 'ref':
+        r['name'] = r['name'] + [['ref', '#nope']]
+    elif kind == 'signer':
+        r['sign'] = r['sign'] + ['#nope']
+    elif kind == 'cons':
+        r['cons'] = [list(cs) for cs in (r['cons'] or [[]])]
+        r['cons'][0] = r['cons'][0] + [{'pat': 'nopat', 'opts': [['lit', 'a']]}]
+    else:
+        i = rng.choice(real)
+        r = rules[i]
+        if kind == 'ref-cycle':
+            r['name'] = r['name'] + [['ref', r['id']]]
+        else:
+            r['sign'] = r['sign'] + [r['id']]
+    rules[i] = r
+    return {'rules': rules}
+
+
+DONOR_RULES = [{'id': '#nope', 'name': [['lit', 'a'], ['pat', 'nopat'], ['pat', '_nope'], ['pat', '_t'], ['pat', '_']], 'cons': [], 'sign': []},
+               {'id': '#_tmp', 'name': [['pat', 'nopat']], 'cons': [], 'sign': []}]
+
+
+def donor_schema(schema):
+    """the schema plus definitions that WRITE what an injected error refers to (rule #nope, patterns nopat / _nope / _t / _):
+    compiled first, it leaves behind every identifier the following text lacks"""
+    return {'rules': list(schema['rules']) + [dict(r) for r in DONOR_RULES]}
+
+
+def run_session_prefix(ops, schema, compile_one, compile_lvs):
+    """execute the ops of a session; `compile_one(schema)` -> observation of one compilation. Returns
+    (rounds of the case's schema, [(label, schema, observation)] of the other texts, outcomes of the raw texts)"""
+    rounds, others, raws = [], [], []
+    for op in ops:
+        if op[0] == 'self':
+            rounds.append(compile_one(schema))
+        elif op[0] == 'text':
+            others.append((op[2], op[1], compile_one(op[1])))
+        else:
+            try:
+                compile_lvs(op[1])
+                raws.append('ok')
+            except Exception as e:          # noqa
+                raws.append(type(e).__name__)
+    return rounds, others, raws
+
+
+def session_shape(ops):
+    return ','.join('self' if op[0] == 'self' else op[2] if op[0] == 'text' else 'raw' for op in ops)
